@@ -8,7 +8,7 @@ from ..prng import Rng, derive
 BASE_W = {'new': 6, 'set': 5, 'setmany': 2, 'setmix': 2, 'seq_probe': 2, 'late_link': 1, 'rel': 4, 'add': 3, 'remove': 3, 'clear': 1, 'assign': 2, 'create_in': 2,
           'del': 3, 'set_none': 1, 'setpk': 1, 'flush': 2, 'commit': 1, 'rollback': 1, 'seq_in': 2, 'new_rawfk': 1,
           'r_attr': 2, 'r_pk': 1, 'r_get': 1, 'r_exists': 1, 'r_select': 1, 'r_count': 1, 'r_aggr': 1, 'r_coll': 2,
-          'r_todict': 1, 'r_getrel': 1, 'oflush': 1, 'fail_probe': 2, 'partial': 1, 'jedit': 2, 'r_proxy': 1}
+          'r_todict': 1, 'r_getrel': 1, 'oflush': 1, 'oflush_del': 1, 'fail_probe': 2, 'partial': 1, 'jedit': 2, 'r_proxy': 1}
 
 FOCUS = {
     'default': {},
